@@ -114,9 +114,14 @@ def main():
     nsample = 0
     nshrunk = 0
     seen_sigs = set()
+    import gc
+    nrun = 0
     for seed in range(a, b, step):
         if args.deadline and time.time() > args.deadline:
             break
+        nrun += 1
+        if nrun % 50 == 1:
+            gc.collect()        # between runs only (see env.Env.__enter__)
         t0 = time.perf_counter()
         try:
             case = engine.generate(args.prop, seed, args.tier)
